@@ -243,6 +243,72 @@ func propC04(t *rapid.T) {
 			fail("Iterate: %d callbacks, want %d (stop after %d, %d elements)", calls, wc, stop, n)
 		}
 	}
+	// reusable iterator objects: Initialize on another bitmap in the middle of a traversal starts afresh
+	{
+		other := roaring.BitmapOf(3, 65536+7, 1<<20)
+		other.AddRange(200000, 200300)
+		other.RunOptimize()
+		om := model.FromValues([]uint64{3, 65536 + 7, 1 << 20})
+		om.AddRange(200000, 200299)
+		k := rapid.IntRange(0, 40).Draw(t, "reuse.consumed")
+		var it roaring.IntIterator
+		it.Initialize(other)
+		for i := 0; i < k && it.HasNext(); i++ {
+			if i%3 == 0 {
+				it.PeekNext()
+			}
+			it.Next()
+		}
+		if it.HasNext() {
+			it.PeekNext()
+		}
+		it.Initialize(b)
+		for i := uint64(0); i < n && i < 3000; i++ {
+			if !it.HasNext() {
+				fail("re-initialized IntIterator ends after %d of %d values", i, n)
+			}
+			if w := mustSel(m, i); uint64(it.PeekNext()) != w {
+				fail("re-initialized IntIterator: PeekNext at position %d = %d want %d", i, it.PeekNext(), w)
+			}
+			if v := it.Next(); uint64(v) != mustSel(m, i) {
+				fail("re-initialized IntIterator: value %d = %d want %d", i, v, mustSel(m, i))
+			}
+		}
+		var rit roaring.IntReverseIterator
+		rit.Initialize(other)
+		for i := 0; i < k && rit.HasNext(); i++ {
+			rit.Next()
+		}
+		rit.Initialize(b)
+		for i := uint64(0); i < n && i < 3000; i++ {
+			if !rit.HasNext() {
+				fail("re-initialized IntReverseIterator ends after %d of %d values", i, n)
+			}
+			if v := rit.Next(); uint64(v) != mustSel(m, n-1-i) {
+				fail("re-initialized IntReverseIterator: value %d = %d want %d", i, v, mustSel(m, n-1-i))
+			}
+		}
+		var mit roaring.ManyIntIterator
+		mit.Initialize(other)
+		buf := make([]uint32, 1+k%17)
+		mit.NextMany(buf)
+		mit.Initialize(b)
+		got := uint64(0)
+		big := make([]uint32, 257)
+		for got < n && got < 3000 {
+			c := mit.NextMany(big)
+			if c == 0 {
+				fail("re-initialized ManyIntIterator ends after %d of %d values", got, n)
+			}
+			for j := 0; j < c; j++ {
+				if uint64(big[j]) != mustSel(m, got+uint64(j)) {
+					fail("re-initialized ManyIntIterator: value %d = %d want %d", got+uint64(j), big[j], mustSel(m, got+uint64(j)))
+				}
+			}
+			got += uint64(c)
+		}
+		_ = om
+	}
 	// Values / Backward with break after k
 	{
 		// a sequence value may be ranged over more than once (each time from the start), also after an early break
